@@ -44,6 +44,9 @@ var theT *testing.T
 
 func init() {
 	log.SetOutput(io.Discard)
+	if os.Getenv("VERIF_DEBUGLOG") != "" {
+		log.SetOutput(os.Stdout) // the daemon's own log lines, for debugging a replay
+	}
 	time.Local = time.UTC
 }
 
@@ -183,6 +186,9 @@ func randName(r *verifsim.Run, maxLen int) string {
 func genCfg(r *verifsim.Run, focus string) cCfg {
 	var c cCfg
 	c.Model = []string{lepton3.Model, lepton3.Model35, "boson"}[r.Draw(3)]
+	if (focus == "C05" || focus == "C06") && c.Model == "boson" {
+		c.Model = lepton3.Model35 // throttled files are matched through TimeOn, which the Boson converter fabricates
+	}
 	c.W, c.H = r.Range(4, 10), r.Range(4, 8)
 	c.Fps = r.OneOf(1, 2, 3, 5, 9, 9)
 	c.Serial = r.OneOf(0, 1, 12345, r.Draw(1<<31))
@@ -255,8 +261,37 @@ func genCfg(r *verifsim.Run, focus string) cCfg {
 		}
 	}
 	c.WinStart, c.WinStop = "12:00", "12:00" // no window
+	switch focus {
+	case "C04":
+		// the bubble clock starts at 2000-01-01 00:00:00 UTC: windows whose boundaries the run walks across,
+		// in both directions (incl. one spanning midnight), and the real statfs refusal
+		c.Fps = r.OneOf(1, 1, 2, 3)
+		c.ThrOn = false
+		a, b := r.Range(0, 3), r.Range(0, 3)
+		if a == b {
+			b = a + 1
+		}
+		c.WinStart, c.WinStop = fmt.Sprintf("00:%02d", a), fmt.Sprintf("00:%02d", b)
+		if r.Chance(1, 6) {
+			c.WinStart, c.WinStop = "23:59", fmt.Sprintf("00:%02d", 1+r.Draw(2))
+		}
+		if r.Chance(1, 4) {
+			c.MinDiskMB = 1000000000 // more than any disk has: the real free-space check refuses
+		}
+	case "C05", "C06":
+		c.ThrOn = !r.Chance(1, 5)
+		if c.ThrOn {
+			c.BucketS = r.OneOf(1, 2, 3, 5, 10)
+			c.RefillS = r.OneOf(2, 5, 20, 60)
+			if c.MinS+c.Preview == 0 {
+				c.MinS, c.MaxS = 1, c.MaxS+1
+			}
+		}
+	}
 	return c
 }
+
+func (c *cCfg) throttled() bool { return c.ThrOn && c.BucketS < 600 }
 
 // scene generator: uniform background, a warm blob that appears/disappears
 type cScene struct {
@@ -333,6 +368,9 @@ func genConn(r *verifsim.Run, focus string, cfg cCfg, firstID int) *cConn {
 	c := &cn.Cfg
 	s := &cScene{r: r, c: c, base: uint16(r.Range(3050, 3150)), up: 60000, ffc: 1000, id: firstID}
 	n := r.Range(20, 160)
+	if focus == "C04" || focus == "C05" || focus == "C06" {
+		n = r.Range(60, 260)
+	}
 	pBad, pClear, pTest := 0, 0, 0
 	if r.Chance(1, 3) {
 		pBad = r.OneOf(10, 30)
@@ -347,6 +385,10 @@ func genConn(r *verifsim.Run, focus string, cfg cCfg, firstID int) *cConn {
 	for len(cn.Ev) < n {
 		seg := r.Pick(3, 4, 2)
 		m := r.Range(1, 30)
+		if focus == "C04" || focus == "C05" || focus == "C06" {
+			seg = r.Pick(1, 6, 2) // mostly motion, so that starts are attempted all along the run
+			m = r.Range(5, 80)
+		}
 		for i := 0; i < m && len(cn.Ev) < n; i++ {
 			move := false
 			switch seg {
@@ -744,6 +786,7 @@ func reference(cn *cConn, procTimes []time.Time, delivered int) ([]refRec, *zz.T
 	for i := range sinks {
 		sinks[i] = zz.NewSink(tr, i)
 	}
+	sinks[zz.SinkMotion].UseEventGates = true
 	w, err := window.New(c.WinStart, c.WinStop, 0, 0)
 	if err != nil {
 		panic(err)
@@ -768,8 +811,10 @@ func reference(cn *cConn, procTimes []time.Time, delivered int) ([]refRec, *zz.T
 		switch e.Kind {
 		case 'F', 'B':
 			if nF < len(procTimes) {
-				clock.T = procTimes[nF]
+				// the daemon reads the clock after the processing cost has been charged
+				clock.T = procTimes[nF].Add(time.Duration(cn.Costs[nF%len(cn.Costs)]) * time.Millisecond)
 			}
+			ev.DiskOK = c.MinDiskMB < 1000000
 			nF++
 			ev.ID = e.ID
 			feed.next = e
@@ -947,8 +992,26 @@ func runCE2E(r *verifsim.Run) {
 			cfg.Cont = true
 		}
 		cn := genConn(r, r.Prop, cfg, id)
+		if cfg.throttled() {
+			var ev []cEvent
+			for _, e := range cn.Ev {
+				if e.Kind != 'T' {
+					ev = append(ev, e)
+				}
+			}
+			cn.Ev = ev
+		}
 		id += len(cn.Ev) + 10
 		sc.Conns = append(sc.Conns, cn)
+		if cfg.throttled() {
+			break // one connection per throttled run
+		}
+	}
+	for _, cn := range sc.Conns {
+		if cn.Cfg.throttled() {
+			sc.Conns = []*cConn{cn} // a throttled run has exactly one connection
+			break
+		}
 	}
 	for i, cn := range sc.Conns {
 		r.Set(fmt.Sprintf("conn%d", i), cn.describe())
@@ -1049,10 +1112,19 @@ func checkE2E(r *verifsim.Run, sc *cScenario, res *cResult) {
 		}
 		recs, tr := reference(cn, cr.ProcTimes, nSent)
 		_ = tr
+		if c.throttled() {
+			checkThrottledConn(r, cn, cr, recs, res)
+			if r.Failed() {
+				return
+			}
+		}
 		for _, rc := range recs {
 			// a recording open when the connection ends is never finished (motion: discarded; others: left as temp files)
 			if !rc.Closed {
 				continue
+			}
+			if c.throttled() && rc.Sink == zz.SinkMotion {
+				continue // decided by checkThrottledConn
 			}
 			dir := "."
 			if rc.Sink == zz.SinkCont {
@@ -1064,6 +1136,12 @@ func checkE2E(r *verifsim.Run, sc *cScenario, res *cResult) {
 		r.Count("frames", nSent)
 		if cn.CutAt >= 0 {
 			r.Probe("connection-cut-mid-frame")
+		}
+		if c.WinStart != c.WinStop {
+			r.Probe("window-through-config")
+		}
+		if c.MinDiskMB >= 1000000 {
+			r.Probe("disk-refusal-through-statfs")
 		}
 		if c.boson() {
 			r.Probe("boson")
@@ -1096,6 +1174,9 @@ func checkE2E(r *verifsim.Run, sc *cScenario, res *cResult) {
 		}
 	}
 	for _, dir := range []string{".", "constant-recordings"} {
+		if dir == "." && len(sc.Conns) == 1 && sc.Conns[0].Cfg.throttled() {
+			continue // decided by checkThrottledConn
+		}
 		exp := expByDir[dir]
 		sort.SliceStable(exp, func(i, j int) bool { return false }) // already in connection/start order per sink; merge motion+test by start event below
 		if dir == "." {
@@ -1131,6 +1212,14 @@ func checkE2E(r *verifsim.Run, sc *cScenario, res *cResult) {
 				prop, rule = "C14", "C14.delivery"
 			}
 			r.Violate(prop, rule, fmt.Sprintf("count:%s", dir), "directory %s holds %d finished recordings %v, the settings and the byte stream call for %d %v", dir, len(act), names, len(exp), wants)
+			if dir == "." && sc.Focus == "C04" {
+				c0 := &sc.Conns[0].Cfg
+				why := "window"
+				if c0.MinDiskMB >= 1000000 {
+					why = "disk"
+				}
+				r.Violate("C04", "C04.files", why, "window %s-%s, min-disk-space-mb %d: the output directory holds %d finished recordings %v; starts allowed only with the window open and enough disk space call for %d %v", c0.WinStart, c0.WinStop, c0.MinDiskMB, len(act), names, len(exp), wants)
+			}
 			if dir == "." {
 				r.Violate("C14", "C14.delivery", "files", "directory %s holds %d finished recordings, expected %d", dir, len(act), len(exp))
 				nTest := 0
@@ -1149,6 +1238,14 @@ func checkE2E(r *verifsim.Run, sc *cScenario, res *cResult) {
 		}
 		for i := range exp {
 			before := r.Failed()
+			if exp[i].rec.Sink == zz.SinkMotion && r.Prop == "C04" {
+				r.Map = func(prop, rule, sig string) (string, string, string) {
+					if prop == "C11" && rule == "C11.frames" {
+						return "C04", "C04.files", "content:" + sig
+					}
+					return prop, rule, sig
+				}
+			}
 			if exp[i].rec.Sink != zz.SinkMotion && r.Prop == "C17" {
 				r.Map = func(prop, rule, sig string) (string, string, string) {
 					if prop == "C11" && (rule == "C11.frames" || rule == "C11.background") {
@@ -1229,7 +1326,7 @@ func unitsC() []verifsim.Unit {
 			Assumptions: []string{"leptond's sendCameraSpecs cannot be executed (SPI hardware): marker and header keys are compared statically (AST), labelled static"},
 		},
 		{
-			Name: "C.e2e", Props: []string{"C11", "C14", "C13", "C17", "C12", "C10"}, Run: runCE2E, MinimiseRuns: 60,
+			Name: "C.e2e", Props: []string{"C11", "C14", "C13", "C17", "C12", "C10", "C04", "C05", "C06"}, Run: runCE2E, MinimiseRuns: 60,
 			Rule:    "one case = 1-2 camera connections, each with generated config.toml (device, location, recorder, motion keys present or left to the camera-model default, throttle on with an ample bucket or off) + generated camera description (lepton3 / lepton3.5 / boson) + frame stream (scene with a warm blob, bad frames, clear markers, test-recording requests) cut into seeded chunk sizes, optionally cut in the middle of the last frame; every finished .cptv is decoded with go-cptv's reader and compared with the recordings that the expected settings and the sent frames call for; non-trivial = at least one finished recording; distinct = full scenario description",
 			Measure: "c.e2e = (camera model, connections, finished files)",
 			Real:    realC, Stub: stubC,
@@ -1606,4 +1703,134 @@ func cameraSched(cn *cConn, conn net.Conn) {
 	flush(true)
 	time.Sleep(owed + period)
 	verifsim.Yield("camera:done")
+}
+
+// checkThrottledConn: world-C half of C05/C06 — throttling activated through config.toml and
+// main.go's wiring, token bucket on the bubble clock. The motion files must (1) consist of
+// frames of the unthrottled recordings, in order, pixel-exact; (2) obey the stated bound over
+// every interval (write instants = the instants at which the daemon processed the frames);
+// (3) hold at least a minimum clip (min-secs+preview-secs) when cut by the throttle.
+func checkThrottledConn(r *verifsim.Run, cn *cConn, cr *cConnResult, recs []refRec, res *cResult) {
+	c := &cn.Cfg
+	M := (c.MinS + c.Preview) * c.Fps
+	C := float64(c.BucketS * c.Fps)
+	rho := float64(M) / float64(c.RefillS)
+	byTimeOn := map[time.Duration]*cEvent{}
+	procTime := map[int]time.Time{}
+	k := 0
+	for i := range cn.Ev {
+		e := &cn.Ev[i]
+		if e.Kind == 'F' || e.Kind == 'B' {
+			byTimeOn[e.Tel.TimeOn()] = e
+			if k < len(cr.ProcTimes) {
+				procTime[e.ID] = cr.ProcTimes[k].Add(time.Duration(cn.Costs[k%len(cn.Costs)]) * time.Millisecond)
+			}
+			k++
+		}
+	}
+	// reference motion recordings: id -> (recording index, position)
+	type pos struct{ rec, i int }
+	where := map[int]pos{}
+	var motionRecs []refRec
+	for _, rc := range recs {
+		if rc.Sink == zz.SinkMotion {
+			for i, id := range rc.IDs {
+				where[id] = pos{len(motionRecs), i}
+			}
+			motionRecs = append(motionRecs, rc)
+		}
+	}
+	var files []string
+	for _, f := range res.Final {
+		if strings.HasSuffix(f, ".cptv") && filepath.Dir(f) == "." {
+			files = append(files, f)
+		}
+	}
+	if r.Replay {
+		for i, rc := range motionRecs {
+			r.Logf("reference motion recording %d: ids %v closed=%v startEv=%d", i, rc.IDs, rc.Closed, rc.StartEv)
+		}
+		for _, rc := range recs {
+			if rc.Sink != zz.SinkMotion {
+				r.Logf("reference %s recording: ids %v closed=%v", zz.SinkName[rc.Sink], rc.IDs, rc.Closed)
+			}
+		}
+		r.Logf("final files %v", res.Final)
+	}
+	var wt []time.Time
+	nCut := 0
+	for _, f := range files {
+		d := res.Decoded[f]
+		if d.Err != "" {
+			r.Violate("C06", "C06.pairing", "file:undecodable", "throttled file %s does not decode: %s", f, d.Err)
+			return
+		}
+		frames := d.Frames
+		if d.HasBg && len(frames) > 0 {
+			frames = frames[1:]
+		}
+		var ids []int
+		for i, fr := range frames {
+			e := byTimeOn[fr.Status.TimeOn]
+			if e == nil || !samePix(fr.Pix, e.Pix) {
+				r.Violate("C06", "C06.transparent", "file:content", "throttled file %s frame %d is not a frame that was sent (time-on %v)", f, i, fr.Status.TimeOn)
+				return
+			}
+			ids = append(ids, e.ID)
+		}
+		if r.Replay {
+			r.Logf("file %s ids %v", f, ids)
+		}
+		if len(ids) == 0 {
+			r.Violate("C06", "C06.pairing", "file:empty", "throttled file %s holds no frame", f)
+			return
+		}
+		p0, ok := where[ids[0]]
+		if !ok {
+			r.Violate("C06", "C06.transparent", "file:outside-recording", "throttled file %s starts with frame id %d which the unthrottled daemon would not have recorded", f, ids[0])
+			return
+		}
+		rc := motionRecs[p0.rec]
+		for i, id := range ids {
+			if p0.i+i >= len(rc.IDs) || rc.IDs[p0.i+i] != id {
+				r.Violate("C06", "C06.transparent", "file:order", "throttled file %s: frame %d is id %d, expected the next frame of the same recording (every forwarded frame unchanged and in order)", f, i, id)
+				return
+			}
+			wt = append(wt, procTime[id])
+		}
+		if p0.i+len(ids) < len(rc.IDs) {
+			nCut++
+			r.Probe("file-cut-by-throttle")
+			if len(ids) < M {
+				r.Violate("C06", "C06.cut-short", "file", "file %s was cut by the throttle after %d frames; min-secs+preview-secs = %d s at %d fps is %d frames", f, len(ids), c.MinS+c.Preview, c.Fps, M)
+				return
+			}
+		}
+		if p0.i > 0 {
+			r.Probe("file-restarted-mid-trigger")
+		}
+	}
+	sort.Slice(wt, func(i, j int) bool { return wt[i].Before(wt[j]) })
+	for n := 1; n <= len(wt); n++ {
+		for j := n - 1; j >= 0; j-- {
+			cnt := float64(n - j)
+			dt := wt[n-1].Sub(wt[j]).Seconds()
+			if cnt > C+1.01*rho*dt+2 {
+				r.Violate("C05", "C05.bound", "files", "%v frames of the motion files were processed within %.3fs; bound is capacity %v + 1.01 x %.4f x %.3f + 2 = %.2f (throttling activated through config.toml)", cnt, dt, C, rho, dt, C+1.01*rho*dt+2)
+				return
+			}
+		}
+	}
+	// the unthrottled daemon would have stored more than the bucket allows? then the run exercised the throttle
+	total := 0
+	for _, rc := range motionRecs {
+		if rc.Closed {
+			total += len(rc.IDs)
+		}
+	}
+	if float64(total) > C+2 {
+		r.Probe("throttle-exercised-through-config")
+	}
+	r.Count("throttled_files", len(files))
+	_ = nCut
 }
